@@ -654,6 +654,67 @@ def _build_model(h, g):
     h.cover("model built")
 
 
+def _build_model_exhaustive(h, g):
+    """Thorough tier: *every* installation with up to 4 zones (ids 0..n-1) and one or two ACs whose zone
+    assignment fields take every value in range (AT5: start/count 0..4; AT4: every group subset, or no bitmap with
+    start/count 0..4), consistent or not.  Reference: the AC gets exactly the zones its ability names; a console
+    that names a zone it never described makes the step fail with KeyError (init() then times out cleanly) and
+    with nothing else."""
+    if not h.symbolic:
+        return
+    import itertools
+    G = GEN[g]
+    C = G["comms"]
+    E = Env(h, g, G["names_state"])
+    top = 4 if g == 5 else 3
+    n = h.choice("zones", list(range(top + 1)))
+    zone_ids = list(range(n))
+    h.method(E.at, G["p_names"], {z: f"Z{z}" for z in zone_ids})
+    zones = h.attr(E.at, "_zones")
+    mc = C + ("x2C_ac_ctrl" if g == 4 else "xC022_ac_ctrl")
+    modes = {m: True for m in h.members(mc + ":AcModeControl")}
+    fans = {f: True for f in h.members(mc + ":AcFanSpeedControl")}
+    n_acs = h.choice("acs", [1, 2])
+    abl, want = [], {}
+    for a in range(n_acs):
+        if g == 5:
+            start, count = h.choice(f"ac{a}_start", list(range(top + 1))), h.choice(f"ac{a}_count", list(range(top + 1)))
+            abl.append(h.new(C + "x1FFF11_ac_ability:AcAbility", ac_number=a, ac_name=f"AC{a}", ac_mode_support=modes, fan_speed_support=fans,
+                             min_cool_set_point=16, max_cool_set_point=30, min_heat_set_point=16, max_heat_set_point=30,
+                             start_zone=start, zone_count=count))
+            want[a] = list(range(start, start + count))
+        else:
+            subsets = [None] + [list(c) for r in range(0, top + 2) for c in itertools.combinations(range(top + 1), r)]
+            grp = h.choice(f"ac{a}_groups", subsets)
+            # the old start / count fields only matter without a bitmap (with one they are arbitrary: 3 / 2 here)
+            start, count = (h.choice(f"ac{a}_start", list(range(top + 1))), h.choice(f"ac{a}_count", list(range(top + 1)))) if grp is None else (3, 2)
+            abl.append(h.new(C + "x1FFF11_ac_ability:AcAbility", ac_number=a, ac_name=f"AC{a}", ac_mode_support=modes, fan_speed_support=fans,
+                             min_set_point=16, max_set_point=30, start_group=start, group_count=count,
+                             groups=None if grp is None else set_of(h, grp)))
+            want[a] = ("all" if n_acs == 1 else list(range(start, start + count))) if grp is None else grp
+    if g == 4:
+        want = {a: (zone_ids if w == "all" else w) for a, w in want.items()}
+    r = h.method(E.at, "_process_ac_ability_message", abl)
+    # the step is a loop over the ACs in message order: it stops at the first AC that names a zone that does not exist
+    first_bad = next((a for a in range(n_acs) if any(z not in zone_ids for z in want[a])), None)
+    if first_bad is not None:
+        h.oblige("a console that names a zone it never described makes the step fail with KeyError only", r.raised("KeyError"))
+        h.cover("inconsistent console")
+        return
+    h.oblige("ability processing never raises for a self-consistent console", r.ok)
+    if not r.ok:
+        return
+    acs = h.attr(E.at, "_air_conditioners")
+    h.oblige("exactly the reported air-conditioners exist, keyed by their number", sorted(acs.keys()) == list(range(n_acs)))
+    for a in range(n_acs):
+        if a not in acs:
+            continue
+        got = h.elems(h.prop(acs[a], "zones").value)
+        h.oblige(f"AC {a}: exactly the zones its ability names, as the shared zone objects",
+                 len(got) == len(want[a]) and all(any(z is zones[i] for z in got) for i in want[a]))
+    h.cover("model built")
+
+
 def set_of(h, items):
     from pyvc.values import SetVal
     return SetVal(items)
@@ -730,6 +791,10 @@ def _init_machine_lemma(h, g):
 def _register(g):
     n = f"at{g}.airtouch"
     G = GEN[g]
+    oset(n + ".build-model.every-small-installation", ["C09"], [_fn(g, G["p_names"]), _fn(g, "_process_ac_ability_message")], tier="thorough",
+         bounded=("every installation with 0..4 zones, 1..2 ACs, start / count 0..4" if g == 5 else
+                  "every installation with 0..3 groups, 1..2 ACs, each with any bitmap over groups 0..3 or no bitmap and start / count 0..3")
+         + ", consistent or not (complete enumeration inside the bound)")(lambda h: _build_model_exhaustive(h, g))
     oset(n + ".init-machine-lemma", ["C09"], [_fn(g, "_message_received"), _fn(g, "_connection_changed")], kind="lemma",
          assumptions=["lemma over the transition table of the _message_received / _connection_changed contracts (finite, enumerated completely)"])(
              lambda h: _init_machine_lemma(h, g))
